@@ -5,6 +5,7 @@ CONSTANTS
   MaxOps = 4
   Free = FALSE
   ReportMeansDead = FALSE
+  RemDeadMeansDead = FALSE
   Hist = TRUE
   Cases <- PlanCases
 INVARIANT PathDump
